@@ -339,6 +339,20 @@ def replay_api_potential(order):
             worst = max(worst, e)
             if e > 1e-11:
                 bad["%s.%s k=%s order=%d" % (fam, layer, k, order)] = e
+    # potentials built by arithmetic from the factory-made ones (combined-layer potential D - i eta S, rescaled and negated operators): the same linear combination of the
+    # values verified above
+    from bempp_cl.api.operators.potential import helmholtz as _ph
+
+    sp = api.function_space(g, "P", 1)
+    c = rng.randn(sp.global_dof_count) + 1j * rng.randn(sp.global_dof_count)
+    f = api.GridFunction(sp, coefficients=c)
+    S_, D_ = _ph.single_layer(sp, pts, 1.7 + 0.3j, parameters=par), _ph.double_layer(sp, pts, 1.7 + 0.3j, parameters=par)
+    vs, vd = np.asarray(S_.evaluate(f)), np.asarray(D_.evaluate(f))
+    for lab, op_, want in (("D - 1j*0.7*S", D_ - 1j * 0.7 * S_, vd - 0.7j * vs), ("(2.5*S)*3", (2.5 * S_) * 3.0, 7.5 * vs), ("-(2.5*S)", -(2.5 * S_), -2.5 * vs)):
+        e = float(np.abs(np.asarray(op_.evaluate(f)) - want).max() / np.abs(want).max())
+        worst = max(worst, e)
+        if e > 1e-12:
+            bad["helmholtz %s order=%d" % (lab, order)] = e
     return {"violates": bool(bad), "failing": bad, "worst": worst}
 
 
